@@ -209,6 +209,9 @@ pub struct FieldDef {
 #[derive(Clone, Debug, PartialEq, Eq)]
 pub struct RecordDef {
     pub name: String,
+    /// derived declarations read `Option` fields through the optional-field procedure; tuples read
+    /// every member through the plain one
+    pub option_aware: bool,
     pub steps: Vec<Step>,
     pub fields: Vec<FieldDef>,
 }
